@@ -1249,6 +1249,17 @@ func (e *Engine) aliasTarget(st *State, r ast.Expr) *keyInfo {
 			return nil
 		}
 	case *ast.SelectorExpr, *ast.IndexExpr, *ast.StarExpr:
+	case *ast.BinaryExpr:
+		// last := len(s) - 1 names that offset while s keeps its value
+		if x.Op != token.SUB && x.Op != token.ADD {
+			return nil
+		}
+		if _, ok := constInt(e.Info, x.Y); !ok {
+			return nil
+		}
+		if call, ok := ast.Unparen(x.X).(*ast.CallExpr); !ok || !IsBuiltinCall(e.Info, call, "len") {
+			return nil
+		}
 	case *ast.TypeAssertExpr:
 		if x.Type == nil {
 			return nil
